@@ -257,7 +257,7 @@ enum Exp {
     Any,
 }
 impl CompletionWalks {
-    const KINDS: [&'static str; 13] = [
+    const KINDS: [&'static str; 16] = [
         "query->completed(a,b)",
         "query->complete_one(a,b), completed(c,d)",
         "query->zero-column set of n rows",
@@ -271,6 +271,9 @@ impl CompletionWalks {
         "INIT_DB",
         "query->1 row, then a zero-column set of n rows, then completed(a,b)",
         "query->complete_one(a,b), rows, ERR",
+        "query->zero-column set of n rows ended by an error",
+        "execute->zero-column set of n rows ended by an error",
+        "query->1 row, complete_one(a,b), zero-column set of n rows ended by an error",
     ];
     const VALS: [u64; 11] = [0, 1, 7, 250, 251, 65535, 65536, (1 << 24) - 1, 1 << 24, 1 << 32, u64::MAX];
     const ROWS: [u64; 5] = [0, 1, 3, 251, 300];
@@ -334,6 +337,24 @@ impl CompletionWalks {
                     p.push(WOp::Completed(a, b));
                     vec![Exp::Rs(1), Exp::Ok(n, 0), Exp::Ok(a, b)]
                 }
+                13 | 14 => {
+                    p.push(WOp::Start(c0.clone()));
+                    for _ in 0..n {
+                        p.push(WOp::EndRow);
+                    }
+                    p.push(WOp::FinishError(msql_srv::ErrorKind::ER_NO, b"late".to_vec()));
+                    vec![Exp::Err]
+                }
+                15 => {
+                    rows(&mut p, 1, false);
+                    p.push(WOp::CompleteOne(a, b));
+                    p.push(WOp::Start(c0.clone()));
+                    for _ in 0..n {
+                        p.push(WOp::EndRow);
+                    }
+                    p.push(WOp::FinishError(msql_srv::ErrorKind::ER_NO, b"late".to_vec()));
+                    vec![Exp::Rs(1), Exp::Ok(a, b), Exp::Err]
+                }
                 _ => {
                     p.push(WOp::CompleteOne(a, b));
                     p.push(WOp::Start(c1.clone()));
@@ -343,7 +364,7 @@ impl CompletionWalks {
                 }
             };
             cmds.push(match k {
-                4 | 5 | 6 => ClientCmd::new(cmd_execute(1, 0, 1, &[])),
+                4 | 5 | 6 | 14 => ClientCmd::new(cmd_execute(1, 0, 1, &[])),
                 8 => ClientCmd::new(with_byte(COM_STMT_PREPARE, b"id=1 p=0")),
                 9 => ping(),
                 10 => ClientCmd::new(with_byte(COM_INIT_DB, b"db")),
@@ -444,7 +465,7 @@ pub fn build(quick: bool) -> Check {
     Check {
         id: "C14",
         level: "model_checking",
-        rule: format!("(rows, last_insert_id) over a lattice of {} values per component (0, 1, 250..256, 2^16, 2^24, 2^32, 2^63, 2^64-1, every 2^k and 2^k +- 1) squared x 4 contexts (completed; complete_one first/middle; completed after complete_one) x text/binary; every value 0..1100 (thorough: 0..70000 and 2^24+-300) of one component against 0, 7, 251, 65536, 2^24, 2^64-1 of the other, both ways round; zero-column resultsets with every row count 0..300 and 65535, 65536, 70000 via end_row, write_row (empty and with cells), ignored write_col (values and NULLs), and as the second of two zero-column sets; every sequence of <= 5 (thorough: 6) exchanges on one connection over 13 kinds (completions direct / chained / as zero-column sets in text and binary, ordinary resultsets, errors at once and after a completion, PREPARE, PING, INIT_DB) with position-dependent counts from every length class. Oracle: refwire's length-encoded-integer decoding of the OK packet, and mysql_common's OkPacket. Non-trivial = a component beyond the one-byte class.", nv),
+        rule: format!("(rows, last_insert_id) over a lattice of {} values per component (0, 1, 250..256, 2^16, 2^24, 2^32, 2^63, 2^64-1, every 2^k and 2^k +- 1) squared x 4 contexts (completed; complete_one first/middle; completed after complete_one) x text/binary; every value 0..1100 (thorough: 0..70000 and 2^24+-300) of one component against 0, 7, 251, 65536, 2^24, 2^64-1 of the other, both ways round; zero-column resultsets with every row count 0..300 and 65535, 65536, 70000 via end_row, write_row (empty and with cells), ignored write_col (values and NULLs), and as the second of two zero-column sets; every sequence of <= 5 (thorough: 6) exchanges on one connection over 16 kinds (completions direct / chained / as zero-column sets in text and binary, ordinary resultsets, errors at once, after a completion and at the end of a zero-column set, PREPARE, PING, INIT_DB) with position-dependent counts from every length class. Oracle: refwire's length-encoded-integer decoding of the OK packet, and mysql_common's OkPacket. Non-trivial = a component beyond the one-byte class.", nv),
         assumptions: vec!["64-bit components are covered at the boundary lattice, not exhaustively".into()],
         bounds: json!({"lattice": nv, "zero_column_max_exhaustive": 300}),
         exhaustive: true,
